@@ -14,7 +14,8 @@ def tonl_d(ann):
           "func (s S) PM(n int) int { return n }", "", "// hid is unexported; Default hands out a value of it.", "type hid struct{}", "",
           "var Default hid", "", "// HTM is a helper."] + m + ["func (h hid) HTM(n int) int { return n }", "",
           "// MkS is a helper that hands out an S."] + f + ["func MkS() S { return S{} }", "",
-          ] + (["// TTM is a helper method of the helper type; it exists only as a @testonly method (its receiver names TT in a non-test file).",
+          ] + (["// PF of S is a helper method with a parenthesised receiver; the function PF is not a helper.", "// @testonly",
+                "func (s (S)) PF(n int) int { return n }", ""] if ann["meth"] else []) + (["// TTM is a helper method of the helper type; it exists only as a @testonly method (its receiver names TT in a non-test file).",
                 "// @testonly", "func (t TT) TTM(n int) int { return n }", ""] if ann["meth"] else [])
     return "\n".join(ls) + "\n"
 
@@ -135,7 +136,16 @@ def build_tonl(sc, sid):
         pkgs[0]["files"] += gofiles
     else:
         # the first file of the using package imports only "unsafe": the first import of the package carries no annotations
-        gofiles.insert(0, {"name": "u/a0_sizes.go", "src": 'package u\n\nimport "unsafe"\n\nvar _ = unsafe.Sizeof(0)\n'})
+        first = 'package u\n\nimport "unsafe"\n\nvar _ = unsafe.Sizeof(0)\n'
+        if "alias3" in spells:
+            # x0 mentions the alias q.TA without importing d (d's annotations are invisible there), has a @testonly item of its own,
+            # and is imported by u: it is analysed before u in every driver. What x0 could not know must not stick to the type.
+            pkgs.append({"path": "m/x0", "name": "x0", "files": [{"name": "x0/x0.go", "src":
+                         'package x0\n\nimport "m/q"\n\n// helper is a test helper of x0.\n// @testonly\nfunc helper() {}\n\n'
+                         '// Box, held and pass mention the alias.\ntype Box struct{ F q.TA }\n\nvar held q.TA\n\n'
+                         'func pass(h q.TA) q.TA { return h }\n\nvar _ = q.TA{X: 1}\n\nvar _, _ = held, pass\n'}]})
+            first = 'package u\n\nimport (\n\t"unsafe"\n\n\t_ "m/x0"\n)\n\nvar _ = unsafe.Sizeof(0)\n'
+        gofiles.insert(0, {"name": "u/a0_sizes.go", "src": first})
         pkgs.append({"path": "m/u", "name": "u", "files": gofiles})
     expect = set()
     for f, i, code in sc["expect"]:
@@ -164,7 +174,8 @@ def pkgo_d(lines):
           "// hid is unexported; its value Default and its method HM are reachable from outside.", "type hid struct{}", "",
           "// Default is the shared instance.", "var Default hid", "", "// HM is restricted."] + ann + ["func (h hid) HM(n int) int { return n }", "",
           "// state is restricted and unexported; State names it for other packages."] + ann + ["type state struct{ X int }", "",
-          "// State is an exported alias.", "type State = state", ""]
+          "// State is an exported alias.", "type State = state", "",
+          "// QF of S is restricted (parenthesised receiver); the function QF is not."] + ann + ["func (s (*S)) QF(n int) int { return n }", ""]
     return "\n".join(ls) + "\n"
 
 
